@@ -34,8 +34,8 @@ static std::string rat(double v) {
   std::ostringstream o;
   if (e >= 0) {
     if (e > 70) { char buf[64]; snprintf(buf, sizeof buf, "%a", v); return buf; }
-    __int128 big = (__int128)n << e;
-    bool neg = big < 0; if (neg) big = -big;
+    bool neg = n < 0;
+    unsigned __int128 big = (unsigned __int128)(neg ? -n : n) << e;
     std::string s; if (big == 0) s = "0";
     while (big > 0) { s.insert(s.begin(), char('0' + (int)(big % 10))); big /= 10; }
     return (neg ? "-" : "") + s;
